@@ -3,7 +3,8 @@
 Decided here, on the current source of
     falcon/util/mediatypes.py   _MediaRange.match_score, _MediaRange.parse, quality, best_match
     falcon/media/handlers.py    Handlers.__init__/__setitem__/__delitem__/copy/_create_resolver(.resolve), _best_match
-    falcon/request.py           Request.client_accepts, Request.client_prefers
+    falcon/request.py           Request.client_accepts, Request.client_prefers (+ Request.accept)
+    falcon/asgi/request.py      Request.accept (the override that the two inherited methods read on an ASGI request)
     <stdlib of the running interpreter>  collections.UserDict.__init__/__setitem__/__delitem__/__getitem__/
                                 __contains__/__iter__/__len__, MutableMapping.pop/popitem/clear/update/setdefault
                                 (their real source, located next to the running modules and checked against
@@ -895,10 +896,16 @@ class Handler:
     """An opaque media handler (a value of the mapping)."""
 
     def __pyvc_truth__(self):
-        return True  # an ordinary object (no __bool__/__len__): always true, as for the real class
+        # an ordinary object (no __bool__/__len__) is always true, as for falcon's own handler classes; an application's
+        # handler class may define __len__ / __bool__ (falsy=True: e.g. a handler that is also an empty container)
+        return not self.falsy
 
-    def __init__(self, name, sync=False, ser=None, de=None):
+    def __bool__(self):
+        return not self.falsy
+
+    def __init__(self, name, sync=False, ser=None, de=None, falsy=False):
         self.name = name
+        self.falsy = falsy
         # the two synchronous fast paths are independent attributes (a handler may offer either, both or none)
         if sync if ser is None else ser:
             self._serialize_sync = Handler(name + '.serialize-sync')
@@ -1382,6 +1389,10 @@ def handlers_resolve(v):
     # the mapping is filled only now: the resolver must read the mapping as it is when asked, not as it was when built
     n = v.choose(3, 'entries')
     entries = [(KEYS[i], Handler('handler%d' % i, ser=bool(v.choose(2, 'serialize-sync%d' % i)), de=bool(v.choose(2, 'deserialize-sync%d' % i)))) for i in range(n)]
+    # the truth value of a handler object is read by resolve (`if not handler`): the first entry's handler is an ordinary
+    # (true) object or a falsy one; which entry it is does not matter (the matcher contract may pick any key)
+    if n >= 1 and v.choose(2, 'handler0-is-falsy?'):
+        entries[0][1].falsy = True
     data = v.get(h, 'data')
     for k, hd in entries:
         data[k] = hd
@@ -1406,6 +1417,18 @@ def handlers_resolve(v):
     else:
         eff = media_type
     exact = [eff == k for k in keys]
+    if entries and entries[0][1].falsy and exact[0]:
+        # the mapping designates the handler stored under the type itself, whatever python truth value that object has.
+        # REFUTED on the pinned tree (resolve tests `if not handler`, not `is None`); native witness:
+        #   class Pool(BaseHandler):  __len__ = lambda self: 0   (+ serialize / deserialize)
+        #   h = Handlers({'application/json; charset=utf-8': JSONHandler(), 'application/json': Pool()})
+        #   h._resolve('application/json', 'x')[0]  ->  the JSONHandler of the OTHER key (both keys score q=1, the first wins)
+        # (observable result only; whether the matcher was consulted on the way is not part of this clause)
+        v.check('exact-key-designates-the-handler-even-when-the-handler-object-is-falsy', out.exc is None and out.value[0] is entries[0][1])
+        v.check('resolving-does-not-write-the-mapping', g.epoch(h) == e1 and same_items(v.get(h, 'data'), dict(entries)))
+        v.check('resolving-does-not-touch-the-resolver-or-clear-its-cache', v.get(h, '_resolve') is lru0 and not g.clears)
+        v.cover('exact-falsy')
+        return
     hit = Or(*exact)
     v.check('matcher-consulted-exactly-when-there-is-no-exact-key', Iff(hit, len(bm.calls) == 0) and len(bm.calls) <= 1)
     if hit:
@@ -1439,9 +1462,13 @@ def handlers_resolve(v):
     v.check('resolving-does-not-touch-the-resolver-or-clear-its-cache', v.get(h, '_resolve') is lru0 and not g.clears)
 
 
-# one variant per mapping size (all of 0..2 entries are covered; the split only spreads the paths over the cores)
-for _n in (0, 1, 2):
-    harness(PROP, HANDLERS + '._create_resolver', name='resolve[entries=%d]' % _n, setup=_handlers_setup, fix={'entries': _n})(handlers_resolve)
+# one variant per mapping size and truth value of the first handler (every combination of 0..2 entries x {true, falsy} is
+# covered; the split only spreads the paths over the cores)
+harness(PROP, HANDLERS + '._create_resolver', name='resolve[entries=0]', setup=_handlers_setup, fix={'entries': 0})(handlers_resolve)
+for _n in (1, 2):
+    for _f in (0, 1):
+        harness(PROP, HANDLERS + '._create_resolver', name='resolve[entries=%d,falsy-handler=%d]' % (_n, _f), setup=_handlers_setup,
+                fix={'entries': _n, 'handler0-is-falsy?': _f})(handlers_resolve)
 
 
 @harness(PROP, H_MOD + ':_best_match', setup=_handlers_setup)
@@ -1891,6 +1918,9 @@ KILLS = [
      "            media_type: Optional[str], default: str, raise_not_found: bool = True, _fallbacks: list = []\n        ) -> Union[Tuple[None, None, None], _ResolverMethodReturnTuple]:\n"
      "            if media_type is None:\n                if not _fallbacks:\n                    _fallbacks.append(resolve(default, default, raise_not_found))\n                return _fallbacks[0]\n"
      "            if media_type == '*/*' or not media_type:\n", 'Handlers.__init__#never-a-stale-handler'),
+    # a handler object whose python truth value is false (handlers were always true objects): a "defensive" re-check after the matcher
+    ('falcon/media/handlers.py', "                handler = self.data[matched_type]\n",
+     "                handler = self.data[matched_type]\n                if not handler:\n                    return None, None, None\n", 'Handlers._create_resolver#matched-key-designates-the-handler'),
     # the ASGI request class (its own `accept` property) was "by reading"
     ('falcon/asgi/request.py', "            return self._asgi_headers[b'accept'].decode('latin1') or '*/*'\n", "            return self._asgi_headers[b'accept'].decode('latin1')\n",
      'Request.client_accepts#missing-or-empty-accept-header-accepts-everything'),
@@ -1911,8 +1941,8 @@ ASSUMPTIONS = [
     'are separate values with IEEE comparison semantics (class QV)',
     'float(text) denotes the number written in the text or raises ValueError; which of {no number, finite n/1000, nan, +inf, -inf} a q text denotes is chosen by the harness '
     '(all explored); TypeError cannot occur (parameter values are str)',
-    'parameter maps: 0..2 names out of {charset, version, profile} on each side (49 shapes), symbolic values; match_score treats names uniformly (frozenset algebra), '
-    'so larger parameter sets are not covered by the proof, only by the bounded stand-in',
+    'parameter maps: every subset of the three names {charset, version, profile} on each side independently (64 shapes, up to three shared names), symbolic values; '
+    'match_score treats names uniformly (frozenset algebra), so parameter sets with more than three names are not covered by the proof, only by the bounded stand-in',
     'header.split(",") returns at least one member (str.split contract), so quality() never sees an empty range tuple (max() of nothing would raise a bare ValueError)',
     'callee contracts used at call sites are the ones proved here: match_score (sentinel below every match, quality 0.0), quality (q in 0..1 or InvalidMediaType/InvalidMediaRange), '
     'best_match ("" or a candidate or InvalidMediaType)',
@@ -1921,7 +1951,19 @@ ASSUMPTIONS = [
     'stdlib: the source files next to the running collections / _collections_abc modules are the code that runs -- checked per method by recompiling the file and comparing '
     'byte code, names and constants with the loaded function (clause stdlib-source-text-is-the-loaded-byte-code). The check interpreter is python3-vt 3.11; '
     'the direct-writer scan must be re-run under the deployment interpreter',
-    'dict keys: three distinct concrete media-type names; a mapping distinguishes keys only by equality (existing key / new key explored). Handler objects are truthy opaque objects',
+    'dict keys: three distinct concrete media-type names; a mapping distinguishes keys only by equality (existing key / new key explored). Handler objects are opaque; their python '
+    'truth value (read by resolve: `if not handler`) is true, except in the resolve harness where the first entry is also tried as a falsy object; the two sync fast-path '
+    'attributes are present or absent independently',
+    # inputs deliberately left fixed (audit of harness constants), with the reason
+    'media_range_parse: besides q the parsed parameter map holds no or one other parameter, always named charset: parse only tests / pops the key "q" and passes the rest through; '
+    'an upper-case "Q" cannot arrive (parse_header lower-cases names: tokeniser, bounded stand-in)',
+    'quality / best_match / parse: the media type, header and range texts are fixed strings -- they only travel to the opaque parser stubs, which ignore them; the malformed outcomes '
+    'of the quality harness are explored for one range only because a raising parser stub returns no ranges at all',
+    'falcon.constants.PYPY is False (CPython): under PyPy _lru_cache_for_simple_logic is a no-op decorator with a dummy cache_clear (trivially coherent) and _best_match is wrapped in an lru_cache of its own',
+    'history_never_stale: the initial mapping is {K0: A, K1: B}, one operation per history and the matcher contract fixed to "no match": it is an end-to-end sanity run on the real '
+    'memoising wrapper; the inductive argument over ALL histories is the per-operation epoch invariant. The repeated resolution is varied (exact type / missing type -> default / raise_not_found omitted)',
+    'Handlers.copy: the subclass tried adds nothing to Handlers (a subclass overriding __init__ with another signature is outside what copy() can promise)',
+    'MutableMapping.setdefault(key) without a default (would store None as a handler) is not explored: the argument is read by stdlib code only',
     'BOUNDARY (not counted as a violation): `handlers |= other` (UserDict.__ior__) and copy.copy(handlers) (UserDict.__copy__) write / share state without going through '
     'Handlers.__setitem__; neither is in the operation list of the property (set/delete/update/pop/clear/copy). After `handlers |= {...}` the resolver cache IS stale',
     'direct mutation of handlers.data, or replacing handlers._resolve, from outside the class is outside the public interface',
@@ -1929,13 +1971,14 @@ ASSUMPTIONS = [
 NOT_DECIDED = [
     'parse_header / _parse_media_type_header / _parse_media_ranges tokenisation (string scanning, split on ";" "," "="): bounded stand-in only (6000 / 40000 generated headers, text vs structure)',
     'quality: range lists of length 1..3 unrolled (4 in the thorough tier); best_match: candidate lists of length 0..3 unrolled; no invariant over max()',
-    'match_score: parameter-name sets of size <= 2 over three names unrolled (the loop over shared names is unrolled, not cut by an invariant)',
+    'match_score: parameter-name sets of size <= 3 over three names unrolled (the loop over shared names is unrolled, not cut by an invariant)',
     'known deviations of the tokeniser from the RFC 9110 grammar, seen while probing, outside the documented contract: a comma inside a quoted parameter value splits the member '
     '(quality("text/plain", \'text/plain;a="x,y"\') raises InvalidMediaRange); empty list members ("a/b, ,c/d" or a trailing comma) raise InvalidMediaRange; type and subtype '
     'are compared case-sensitively ("TEXT/plain" does not match "text/plain"); float() accepts q=1e-1 and q=0_1',
     'UserDict / MutableMapping methods that write .data directly are found by a syntactic scan (ast walk for stores to <x>.data / __dict__["data"] / mutator calls on <x>.data); '
     'the mixins pop / popitem / clear / update / setdefault are executed from source, the rest of the family is only scanned',
-    'Request.client_accepts_json / _xml / _msgpack (one-line wrappers of client_accepts), ASGI Request (inherits both methods unchanged)',
+    'Request.client_accepts_json / _xml / _msgpack (one-line wrappers of client_accepts); the ASGI Request inherits client_accepts / client_prefers and overrides the `accept` '
+    'property: both are run on a WSGI and on an ASGI request object (raw ASGI header bytes are a stub whose latin-1 decoding is the header text)',
     'options.media_handlers wiring in App / Request / Response (which Handlers object is consulted) -- C12 stubs Handlers._resolve with the contract proved here',
     'termination',
 ]
@@ -1943,6 +1986,6 @@ TRUSTED = [
     'ghost instrumentation in contracts/C11_negotiation.py: Ghost, GDict (a dict subclass that counts every mutation), WatchedFields / watched_class (rebinding of .data), GhostLru',
     'model of dataclass-generated __init__ (assigns the fields in order) for _MediaRange / _MediaType',
     'stdlib_function: private-name mangling applied to the stdlib AST (self.__marker -> self._MutableMapping__marker), default values taken from the loaded function object',
-    'stubs: ParseHeaderStub, RangeModel, Opaque, BestMatchContract, Handler, KeysOnly; opaque dependencies are rebound at module level while the subject runs (class patched)',
+    'stubs: ParseHeaderStub, RangeModel, Opaque, BestMatchContract, Handler, KeysOnly, _HeaderBytes; opaque dependencies are rebound at module level while the subject runs (class patched)',
     'pyvc models: max() returns the first maximal item (with and without key=), frozenset algebra on concrete names, math.isfinite, float (see ASSUMPTIONS)',
 ]
